@@ -16,9 +16,9 @@ inside transitions, and one injected fault — is decided by the model:
   `transition_to`, `_do_pause`, `do_kill`, `CancellableAction.run`, the closing part of `Process.step`);
 * the hooks of the EXCEPTED state (`on_except`, `on_excepted`) are not fault points (they only run after another
   failure); `on_create` is construction (`Fault/Model.lean`, `construct`);
-* **one event of the model** (`stepX`): without a fault the event of the model with listeners (`stepL`), by definition; once a
-  fault is armed, the twins' (`stepF`), also after it fired (the twins then pass every hook).  That the twins of a run whose
-  fault never fires compute what `stepL` computes is checked by the correspondence with the real code (every case of C03, op
+* **a run of the model** (`runX`): without a fault the run of the model with listeners (`runL`), by definition; with a fault
+  armed at the start, the twins' (`runF`), also after it fired (the twins then pass every hook).  That the twins of a run whose
+  fault never fires compute what `runL` computes is checked by the correspondence with the real code (every case of C03, op
   by op), not proved.
 
 Faults in user code that is not a lifecycle hook need no twin:
@@ -444,12 +444,13 @@ def fireNF : Nat → Hook → FCfg → FCfg
 /-- one event with the fault-aware twins -/
 def stepF (P : Prog) (x : FCfg) (ev : Ev) : FCfg × RetV := stepFN (fireNF x.l.plan.length) P x ev
 
-/-- **one event of the model with one injected fault**: the event of the model with listeners if no fault was ever armed, else
-the twins' -/
-def stepX (P : Prog) (x : FCfg) (ev : Ev) : FCfg × RetV :=
-  if x.arm.isNone && !x.fired then ({ x with l := (stepL P x.l ev).1 }, (stepL P x.l ev).2) else stepF P x ev
+/-- a run of the twins -/
+def runF (P : Prog) (x0 : FCfg) (evs : List Ev) : FCfg := evs.foldl (fun x e => (stepF P x e).1) x0
 
-def runX (P : Prog) (x0 : FCfg) (evs : List Ev) : FCfg := evs.foldl (fun x e => (stepX P x e).1) x0
+/-- **a run of the model with (at most) one injected fault**: the run of the model with listeners if no fault is armed at the
+start, else the twins' run -/
+def runX (P : Prog) (x0 : FCfg) (evs : List Ev) : FCfg :=
+  if x0.arm.isNone then { x0 with l := runL P x0.l evs } else runF P x0 evs
 
 def initX (nfut : Nat) (plan : Plan) (arm : Option Arm) : FCfg := { l := initL nfut plan, arm := arm }
 
